@@ -11,6 +11,7 @@ import (
 	"flag"
 	"fmt"
 	"os"
+	"os/exec"
 	"path/filepath"
 	"regexp"
 	"sort"
@@ -108,6 +109,33 @@ func Evaluate(c Case, res subproc.Result, phase string) (out []Finding, obs Obs,
 	why := normalise(regexp.MustCompile(`^commit [0-9a-f]{7}:? ?`).ReplaceAllString(obs.Verdict.Reason, ""))
 	add := func(oracle, sig, detail string) {
 		out = append(out, Finding{oracle, class + ": " + sig, detail + "; mutant " + where + "; reference verdict " + obs.Verdict.String()})
+	}
+	if c.Mode == "G" && obs.Cmd != nil {
+		cmd := obs.Cmd
+		sigOf := func(what string) string { return "command-pull/" + class + "/" + what }
+		addG := func(oracle, what, detail string) {
+			out = append(out, Finding{oracle, sigOf(what), detail + "; `git-bug pull origin` in the victim repository, mutant " + where + "; reference verdict " + obs.Verdict.String() + "; stderr: " + cmd.Stderr})
+		}
+		switch {
+		case cmd.Panic:
+			addG("crash", "panic", fmt.Sprintf("the pull command died with a Go panic (exit %d)", cmd.Exit))
+		case cmd.Exit != 0 && cmd.Exit != 1:
+			addG("crash", fmt.Sprintf("exit-%d", cmd.Exit), "the pull command was killed or ended with an unexpected exit code")
+		}
+		if cmd.Lock {
+			addG("damage", "lock-file-left-behind", "the repository lock file is still there after the command ended")
+		}
+		if cmd.Next != 0 {
+			addG("damage", "next-command-fails", fmt.Sprintf("a following `git-bug bug` exits %d: %s", cmd.Next, cmd.NextErr))
+		}
+		if U && !cmd.Panic && cmd.Exit == 0 {
+			switch {
+			case cmd.Line == "":
+				// nothing printed for it: acceptable only if the fetch did not bring it (then nothing moved either)
+			case !strings.Contains(cmd.Line, "invalid data") && !strings.Contains(cmd.Line, "merge error"):
+				addG("accepted", "reported-"+normalise(strings.SplitN(cmd.Line, ": ", 2)[1]), fmt.Sprintf("printed %q although %s", cmd.Line, why))
+			}
+		}
 	}
 	switch c.Mode {
 	case "E", "C":
@@ -223,6 +251,15 @@ func outcome(c Case, res subproc.Result, obs Obs) string {
 	if obs.PullErr != nil {
 		o += fmt.Sprintf(" pullerr=%v", *obs.PullErr != "")
 	}
+	if obs.Cmd != nil {
+		kind := "none"
+		for _, k := range []string{"new", "updated", "invalid data", "merge error"} {
+			if strings.Contains(obs.Cmd.Line, ": "+k) {
+				kind = k
+			}
+		}
+		o += fmt.Sprintf(" exit=%d panic=%v printed=%s lock=%v next=%d", obs.Cmd.Exit, obs.Cmd.Panic, kind, obs.Cmd.Lock, obs.Cmd.Next)
+	}
 	if obs.Read != nil {
 		o += fmt.Sprintf(" readerr=%v", *obs.Read != "")
 	}
@@ -261,11 +298,42 @@ func buildPlan(m *Meta, tier string) plan {
 			p.cases = append(p.cases, Case{M: mu, Sit: "local", Mode: "L"})
 		}
 	}
+	// through the command: the real `git-bug pull` binary as a process, for every ref-name class
+	// and for the first and the last mutant of every other mutation family (so that every kind of
+	// result line is printed), on one bug seed and one identity seed
+	for _, name := range []string{"S1", "I2"} {
+		s := m.seed(name)
+		cat := Catalogue(m, s)
+		family := func(mu Mut) string { return strings.SplitN(mu.Class, "/", 2)[0] }
+		first, last := map[string]int{}, map[string]int{}
+		for i, mu := range cat {
+			if _, ok := first[family(mu)]; !ok {
+				first[family(mu)] = i
+			}
+			last[family(mu)] = i
+		}
+		for i, mu := range cat {
+			f := family(mu)
+			switch {
+			case f == "ref":
+				p.cases = append(p.cases, Case{M: mu, Sit: "absent", Mode: "G"})
+				if !quick {
+					p.cases = append(p.cases, Case{M: mu, Sit: "equal", Mode: "G"})
+				}
+			case i == first[f] || i == last[f] || !quick && i%7 == 0:
+				for _, sit := range []string{"absent", "behind", "diverged"} {
+					if _, ok := s.Sit[sit]; ok {
+						p.cases = append(p.cases, Case{M: mu, Sit: sit, Mode: "G"})
+					}
+				}
+			}
+		}
+	}
 	// the hand-built history families are few and go first, so that an internal deadline on a busy
 	// machine never cuts them
 	sort.SliceStable(p.cases, func(a, b int) bool {
-		pa := strings.HasPrefix(p.cases[a].M.Class, "craft/") || strings.HasPrefix(p.cases[a].M.Class, "recommit/")
-		pb := strings.HasPrefix(p.cases[b].M.Class, "craft/") || strings.HasPrefix(p.cases[b].M.Class, "recommit/")
+		pa := strings.HasPrefix(p.cases[a].M.Class, "craft/") || strings.HasPrefix(p.cases[a].M.Class, "recommit/") || p.cases[a].Mode == "G"
+		pb := strings.HasPrefix(p.cases[b].M.Class, "craft/") || strings.HasPrefix(p.cases[b].M.Class, "recommit/") || p.cases[b].Mode == "G"
 		return pa && !pb
 	})
 	// exhaustive single-point byte edits
@@ -317,6 +385,27 @@ func phaseOf(dir, caseID string) string {
 	return string(b)
 }
 
+// buildGitBug builds the real binary from the tree under test (no overlay, no tags: what a user
+// runs), next to the harness binary (./check uses one build directory per tree under test).
+func buildGitBug() (string, error) {
+	repo := os.Getenv("VERIF_REPO")
+	if repo == "" {
+		repo = "/repo"
+	}
+	out := filepath.Join(evidence.Root(), ".build", "C07", "git-bug")
+	if exe, err := os.Executable(); err == nil {
+		out = filepath.Join(filepath.Dir(exe), "git-bug")
+	}
+	_ = os.MkdirAll(filepath.Dir(out), 0o755)
+	cmd := exec.Command("go", "build", "-o", out, ".")
+	cmd.Dir = repo
+	cmd.Env = append(os.Environ(), "GOFLAGS=-mod=mod", "GOPROXY=off", "GOSUMDB=off", "GOTOOLCHAIN=local")
+	if b, err := cmd.CombinedOutput(); err != nil {
+		return "", fmt.Errorf("go build of git-bug failed: %v\n%s", err, b)
+	}
+	return out, nil
+}
+
 // Main is the command C07.
 func Main(args []string) {
 	fs := flag.NewFlagSet("C07", flag.ExitOnError)
@@ -324,6 +413,7 @@ func Main(args []string) {
 	only := fs.String("only", "", "restrict to mutation classes matching this regular expression (debugging)")
 	seedsRe := fs.String("seeds", "", "restrict to seeds matching this regular expression (debugging)")
 	budgetS := fs.Int("budget", 0, "override the internal deadline in seconds (debugging)")
+	modesRe := fs.String("modes", "", "restrict to consuming modes matching this regular expression (debugging)")
 	dump := fs.Bool("dump", false, "print the seeds and the catalogue sizes, run nothing")
 	fs.Parse(args)
 	tier := evidence.Tier()
@@ -336,6 +426,11 @@ func Main(args []string) {
 		os.RemoveAll(scratch)
 		os.Exit(2)
 	}
+	// before the template world points HOME (and with it the Go module and build caches) elsewhere
+	bin, err := buildGitBug()
+	if err != nil {
+		fail(err)
+	}
 	root := filepath.Join(scratch, "tmpl")
 	meta, err := BuildTemplate(root, seed)
 	if err != nil {
@@ -343,7 +438,7 @@ func Main(args []string) {
 	}
 	phases := filepath.Join(scratch, "phases")
 	_ = os.MkdirAll(phases, 0o755)
-	env := []string{"C07_TMPL=" + root, "C07_PHASES=" + phases, "VERIF_SCRATCH=" + scratch, "GOTRACEBACK=single"}
+	env := []string{"C07_GITBUG=" + bin, "C07_TMPL=" + root, "C07_PHASES=" + phases, "VERIF_SCRATCH=" + scratch, "GOTRACEBACK=single"}
 
 	if *dump {
 		for _, s := range meta.Seeds {
@@ -366,12 +461,13 @@ func Main(args []string) {
 	}
 
 	pl := buildPlan(meta, tier)
-	if *only != "" || *seedsRe != "" {
+	if *only != "" || *seedsRe != "" || *modesRe != "" {
 		re := regexp.MustCompile(*only)
 		re2 := regexp.MustCompile(*seedsRe)
+		re3 := regexp.MustCompile(*modesRe)
 		var keep []Case
 		for _, c := range pl.cases {
-			if re.MatchString(c.M.Class) && re2.MatchString(c.M.Seed) {
+			if re.MatchString(c.M.Class) && re2.MatchString(c.M.Seed) && re3.MatchString(c.Mode) {
 				keep = append(keep, c)
 			}
 		}
@@ -512,29 +608,30 @@ func Main(args []string) {
 	known := rep.KnownSeen()
 	sort.Strings(known)
 	cov := map[string]any{
-		"evaluations":          executed,
-		"distinct_nontrivial":  len(outcomes),
-		"rule":                 "a case is one (mutant, local situation, consuming mode) executed on the real code in a worker subprocess; distinct non-trivial = number of distinct (mutation class, mode, reference verdict, statuses reported for the mutant, number of changed local refs, error/no error/crash) combinations observed, positions ignored",
-		"exhaustive":           exhaustive && harnessErrs == 0,
-		"planned_cases":        len(pl.cases),
-		"not_mutants":          skipped,
-		"mutation_classes":     len(classes),
-		"space":                pl.note,
-		"cases_per_mode":       modes,
-		"reference_verdicts":   verdicts,
-		"mutant_statuses":      statuses,
-		"crashed_cases":        crashes,
+		"evaluations":                       executed,
+		"distinct_nontrivial":               len(outcomes),
+		"rule":                              "a case is one (mutant, local situation, consuming mode) executed on the real code in a worker subprocess; distinct non-trivial = number of distinct (mutation class, mode, reference verdict, statuses reported for the mutant, number of changed local refs, error/no error/crash) combinations observed, positions ignored",
+		"exhaustive":                        exhaustive && harnessErrs == 0,
+		"planned_cases":                     len(pl.cases),
+		"not_mutants":                       skipped,
+		"mutation_classes":                  len(classes),
+		"space":                             pl.note,
+		"cases_per_mode":                    modes,
+		"reference_verdicts":                verdicts,
+		"mutant_statuses":                   statuses,
+		"crashed_cases":                     crashes,
 		"distinct_findings_including_known": len(found) - flakes,
-		"workers_lost_without_panic": flakes,
-		"seeds":                seedSummary(meta),
-		"others_on_both_sides": meta.Both,
-		"samples":              samples,
+		"workers_lost_without_panic":        flakes,
+		"seeds":                             seedSummary(meta),
+		"others_on_both_sides":              meta.Both,
+		"samples":                           samples,
 	}
 	ev := evidence.Evidence{PropertyID: "C07", Tier: tier, Seed: int(seed), Level: "exploration", Coverage: cov,
 		Assumptions: []string{
 			"every case is an execution of the real git-bug merge / read / cache code on a real go-git repository on tmpfs; a worker that dies is the observation 'crash' of exactly that case",
 			"the reference validity model (props/c07/refvalid.go) reads raw git objects and judges 'unreadable' only what doc/model.md, the entity format comments and the statement forbid; everything else is only required not to crash and not to damage",
 			"remote data is installed as refs/remotes/origin/<ns>/<id> (modes E, C) or served by a bare remote through the in-process go-git transport (mode P); corrupt local data as refs/<ns>/<id> (mode L)",
+			"mode G: the real git-bug binary built from the tree under test runs `git-bug pull origin` as a process in the victim repository (stock git transport from a per-case copy of the bare remote, isolated HOME), for every ref-name class and the first and last mutant of every other family on one bug and one identity seed; required: no panic, exit 0 or 1, the hostile entity printed as invalid where the reference says so, local refs unchanged, lock file gone, a following `git-bug bug` works",
 			"byte-level fuzzing of the statement is replaced by all single-point byte edits (delete, duplicate, '\"', '{', '0', 0x00, 0xff at every offset) of the listed blobs; quick tier: two operation packs and two identity versions, thorough: every blob of every seed except one armored key",
 			"bounded: 3 bug seeds (linear, diamond, two authors) and 3 identity seeds (1-3 versions); one mutation per mutant",
 		},
